@@ -97,7 +97,7 @@ def mk_zone(pid, title, rule, design_ref, text, need_classes):
 
 ZONE_RULE = ("domain = (598 shipped TZif files + synthetic family of tzgen.h) x probes derived from the reference timeline's breakpoints "
              "(every file transition, rule transitions of years last-1..last+402 and of the 400-year images n in {1,2,3,23,1e3,1e6,nmax-1,nmax}, "
-             "Jan 1 of those years, +-2^31, +-2^59, 0, min, max), each +-k seconds (k=2 quick, 3 thorough) and +-|offset change| +-{0,1}; "
+             "Jan 1 of those years, +-2^31, +-2^59, 0, min, max), each +-k seconds (k=2 quick, 4 thorough) and +-|offset change| +-{0,1}; "
              "behaviour class = region of the timeline x kind as classified by the reference; distinct_nontrivial = number of such classes hit")
 
 CHECKS = {
@@ -177,7 +177,7 @@ CHECKS["C15"] = mk_simple("C15", "fixed_posix", "fixed-offset zones and names",
     ["C15:neg-with-seconds", "C15:pos-with-minutes", "C15:zero", "C15:beyond-24h", "C15:name:replace:reject", "C15:name:replace:accept", "C15:name:literal"],
     "Trusted base: ref_fixed.h (30 lines, written from the statement), ref_civil.h.", min_eval=1000000)
 CHECKS["C16"] = mk_simple("C16", "fixed_posix", "POSIX TZ strings",
-    "(a) grammar sentences: every value of every part alphabet (abbreviation forms, offsets = sign x hours x minutes x seconds, dst abbreviation x dst offset, date forms incl. out-of-range and truncated, time forms incl. +-167/168) with the other parts at two settings, plus structural variants (dropped rule, dropped field, extra field, trailing bytes); thorough adds pairwise products; (b) every single edit (delete / replace / insert over 14 symbols, NUL, 0xff) of 200 (600) accepted sentences; (c) ALL strings of length <= 5 (6) over the 14-symbol alphabet; each string parsed twice into result structs pre-filled with 0x00 and 0xA5; (d) end-to-end as the footer of a generated TZif file; class = generator x accept-std/accept-dst/reject as decided by the reference",
+    "(a) grammar sentences: every value of every part alphabet (abbreviation forms, offsets = sign x hours x minutes x seconds, dst abbreviation x dst offset, date forms incl. out-of-range and truncated, time forms incl. +-167/168) with the other parts at two settings, plus structural variants (dropped rule, dropped field, extra field, trailing bytes); thorough adds pairwise products; (b) every single edit (delete / replace / insert over 14 symbols, NUL, 0xff) of 200 (600) accepted sentences; (c) ALL strings of length <= 5 (7) over the 14-symbol alphabet; each string parsed twice into result structs pre-filled with 0x00 and 0xA5; (d) end-to-end as the footer of a generated TZif file; class = generator x accept-std/accept-dst/reject as decided by the reference",
     "Accept/reject must agree with the reference recogniser; on acceptance every meaningful field must equal the reference and be independent of the pre-fill; end to end an invalid footer must make the load fail (leaving UTC) and a valid well-formed one must load and follow the rule.",
     ["C16:sentence:accept-dst", "C16:sentence:accept-std", "C16:sentence:reject", "C16:replace:reject", "C16:delete:accept-dst", "C16:allstrings:accept-std", "C16:e2e:dst", "C16:e2e:reject"],
     "Trusted base: ref_posix.h recursive-descent recogniser written from the grammar in the property statement / time_zone_posix.h.", min_eval=500000)
